@@ -298,6 +298,30 @@ func planRoutes(r *rand.Rand, V *model.Node, p []seg, f fault, base string, topS
 	if f.wantRel != "" {
 		wantLen++
 	}
+	if f.behind > 0 {
+		// the helper settings a value-behind-reference fault resolves through
+		// live in a configuration of their own (own source) handed to every
+		// read as Env
+		out = append(out, route{"behind-ref-env", func(T *model.Node) (built, error) {
+			X, H := T.Copy(), model.Dict()
+			for k := range f.extras {
+				if v, ok := X.D[k]; ok {
+					H.D[k] = v
+					delete(X.D, k)
+				}
+			}
+			desc := fmt.Sprintf("behind-ref-env: NewFrom[%s-op0](%s) read with Env(NewFrom[%s-op2](%s))", base, X, base, H)
+			e, err := ucfg.NewFrom(H.ToGo(), baseOpts(base+"-op2")...)
+			if err != nil {
+				return built{desc: desc}, &callErr{"NewFrom", err, desc}
+			}
+			c, err := ucfg.NewFrom(X.ToGo(), baseOpts(base+"-op0")...)
+			if err != nil {
+				return built{desc: desc}, &callErr{"NewFrom", err, desc}
+			}
+			return built{cfg: c, desc: desc, exactSrc: base + "-op0", uopts: []ucfg.Option{ucfg.Env(e)}}, nil
+		}})
+	}
 	return append(out, expandRoutes(r, V, p, wantLen, f, base, topStruct)...)
 }
 
